@@ -486,6 +486,23 @@ def iter_source(nextcall, through=()):
             src = src[2]  # the iterator variable (or a variable it was moved into / out of): its initial value
         elif src[0] == "call" and (src[1] in ("std::iter::IntoIterator::into_iter", "<I as std::iter::IntoIterator>::into_iter") or src[1] in through):
             src = src[2][0]
+        elif src[0] == "field" and len(src) == 3:
+            # the inner iterator of a private iterator struct whose `next` was inlined: `RawPairs { pairs: s.split('&') }`,
+            # advanced as `self.pairs.next()` -- the field of the struct value the loop variable was initialised with
+            base = src[1]
+            for _ in range(6):
+                if base[0] == "var" and len(base) == 3:      # (a struct one of whose fields is assigned directly is not resolved)
+                    base = base[2]
+                elif base[0] == "call" and base[1] in ("std::iter::IntoIterator::into_iter", "<I as std::iter::IntoIterator>::into_iter") and len(base[2]) == 1:
+                    base = base[2][0]
+                elif base[0] in ("ref", "deref"):
+                    base = base[2] if base[0] == "ref" else base[1]
+                else:
+                    break
+            if base[0] == "agg" and base[1][0] == "adt" and len(base[1]) > 3 and src[2] in base[1][3] and len(base[1][3]) == len(base[2]):
+                src = base[2][list(base[1][3]).index(src[2])]
+            else:
+                break
         else:
             break
     return src
